@@ -8,6 +8,7 @@ complete model states (buffers, position, both ratios, chunk size, needed size, 
 identical getters and, `step` being a function, bit-identical futures.
 -/
 import RubatoProofs.Lemmas.Shape
+import RubatoProofs.Fft.Control
 
 namespace Rubato.C10
 open Rubato
@@ -159,5 +160,19 @@ theorem future_after_reset (kind : AKind) (ratio maxRel : ρ) (deg : Degree) (si
     (a : CallArgs σ) :
     (((s0.run before).reset).run after).process a = (s0.run after).process a := by
   rw [reset_returns_fresh_state kind ratio maxRel deg sint ip chunk nch s0 h before]
+
+end Rubato.C10
+
+namespace Rubato.C10
+open Rubato Rubato.FftProofs
+
+/-- **C10 (synchronous resamplers).**  After ANY valid history, `reset` returns exactly the constructor's state
+(overlaps, buffers, `saved_frames`, `frames_needed`, mask) — hence identical getters and identical futures. -/
+theorem fft_reset_returns_fresh_state {σ υ : Type} {u : FftUnit σ υ} {z : σ} {kind : FKind}
+    {ri ro chunk sub nch : Nat} {s : FState σ υ}
+    (h : FState.init DivArith.exact u z kind ri ro chunk sub nch = .ok s)
+    (cs : List (Call σ)) (hv : ValidHist u s cs) :
+    FState.reset DivArith.exact u z (runCalls u s (0, 0) cs).1 = s :=
+  reset_after_history h cs hv
 
 end Rubato.C10
